@@ -12,7 +12,7 @@ import re
 import tempfile
 
 from mc import decobs
-from mc.core import pmap, short_hash
+from mc.core import pmap, short_hash, run_tasks
 from props.deccommon import MODELS
 from ref import decmodel
 
@@ -523,8 +523,7 @@ def run(ctx):
     ctx.log(f"rewrites: {counts}")
     ctx.rng.shuffle(tasks)
     alltasks = mtasks + tasks  # the long ones first
-    for r in pmap(work, alltasks, ctx.workers):
-        ctx.absorb(r)
+    run_tasks(ctx, work, alltasks)
     total = sum(len(rws) for _b, rws in alltasks)
     ctx.count(states=total, transitions=sum(max(1, len(rw.get("edits", []))) for _b, rws in alltasks for rw, _w in rws))
     ctx.part("rewrites", **counts)
